@@ -93,7 +93,9 @@ ALL_FLAGS = {"-": {}, "more": {"more": True}, "oneway": {"oneway": True}, "more+
              "oneway_false": {"oneway": False}, "more_false": {"more": False},
              # upgrade:true on a request whose method does not upgrade: the connection stays an ordinary varlink connection
              "upgflag": {"upgrade": True}, "upgflag+more": {"upgrade": True, "more": True},
-             "oneway+upgflag": {"oneway": True, "upgrade": True}}
+             "oneway+upgflag": {"oneway": True, "upgrade": True},
+             # every flag spelled out, as clients that always serialise all three members send them
+             "oneway+falses": {"oneway": True, "more": False, "upgrade": False}}
 
 
 def make(kind, flag, tag, flagset=ALL_FLAGS):
